@@ -681,6 +681,13 @@ func (l *commitLog) Truncate(offset int64) error {
 	atomic.StorePointer((*unsafe.Pointer)(unsafe.Pointer(&l.vActiveSegment)),
 		unsafe.Pointer(activeSegment))
 	l.segments = segments
+	// Leader epochs that began at or after the truncation point are gone with
+	// their messages. On a log with gaps (compaction, an interrupted clean) the
+	// new log end can lie below the truncation point: an epoch that began in
+	// the gap in between has no message left either.
+	if next := activeSegment.NextOffset(); next < offset {
+		offset = next
+	}
 	return l.leaderEpochCache.ClearLatest(offset)
 }
 
